@@ -1,6 +1,6 @@
 """C05 - decided by spec/core/Geoh5Core.tla (TLC) + replay of the exported state graph (harness/core_replay.py)."""
 from ..core_check import make
 
-run, replay = make("C05", ["C05_quick.cfg", "C05vp_quick.cfg", "C05blk_quick.cfg", "C05na_quick.cfg"], ["C05_thorough.cfg", ("Sim_remove.cfg", {"num": 150, "depth": 30})],
+run, replay = make("C05", ["C05_quick.cfg", "C05vp_quick.cfg", "C05blk_quick.cfg", "C05na_quick.cfg", "C05gc_quick.cfg"], ["C05_thorough.cfg", ("Sim_remove.cfg", {"num": 150, "depth": 30})],
                    "removals through the workspace and through the parent, of data in 0-2 property groups, objects with children and nested groups; after every step file links, flat containers, property-group blocks, children lists and registries are compared with the specification", neg=('AsBuilt_orphans.cfg','NoOrphansWhenClosed'),
                    concat=[("DrillholeConcatExportFlags.cfg", 21, None)])
